@@ -368,6 +368,10 @@ func checkECDSASignDigestPaths(r *Report, rule string) {
 			}
 			curveOK := strings.HasPrefix(c.Args[curveI].String(), "**$0.") && strings.HasSuffix(c.Args[curveI].String(), ".Curve")
 			rT, sT := c.Args[rI], c.Args[sI]
+			// (r, s) may be fields of what a parsing helper returns
+			if rT.Op == "field" && sT.Op == "field" && helperResult(P, rT) != nil {
+				rT, sT = P.terms.expand(rT, 1), P.terms.expand(sT, 1)
+			}
 			order := ""
 			switch {
 			case rT.Op == "res" && sT.Op == "res" && rT.Args[0].eq(sT.Args[0]) && rT.Args[0].Op == "call" && rT.Args[0].S == "crypto/ecdsa.Sign":
@@ -384,7 +388,17 @@ func checkECDSASignDigestPaths(r *Report, rule string) {
 				um := rT.Args[0].Args[0]
 				ty := strings.TrimPrefix(um.Args[1].S, "*struct{")
 				first := strings.Fields(ty)
-				if len(first) == 0 || first[0] != rT.S || !strings.Contains(ty, "; "+sT.S+" ") {
+				okOrder := len(first) > 0 && first[0] == rT.S && strings.Contains(ty, "; "+sT.S+" ")
+				if !strings.HasPrefix(um.Args[1].S, "*struct{") {
+					// a named struct type: its declared field order
+					okOrder = false
+					if nt := P.namedType(strings.TrimPrefix(um.Args[1].S, "*")); nt != nil {
+						if st, isSt := nt.Underlying().(*types.Struct); isSt && st.NumFields() == 2 {
+							okOrder = st.Field(0).Name() == rT.S && st.Field(1).Name() == sT.S
+						}
+					}
+				}
+				if !okOrder {
 					order = "ASN.1 SEQUENCE {r, s} is decoded into struct " + um.Args[1].S + " but r is taken from field " + rT.S + " and s from " + sT.S
 				}
 				src := um.Args[0]
